@@ -120,11 +120,13 @@ def Ctx.env (c : Ctx) : Env :=
       | .ok digest => c.sigVerify body pubkey digest
       | .error _ => false }
 
-/-- `RawSignatureHash` returns a digest for every script code that tokenises and every hash type —
-    the contexts in which `_CheckSig` raises nothing but CScriptInvalidError (used by C05's template
-    theorems; the bounded form the simulation needs is `SigHashOK` in Proofs/ScriptEquivSig.lean) -/
+/-- `RawSignatureHash` returns a digest for every script code of at most 10 000 bytes that tokenises
+    and every hash-type byte — the contexts in which `_CheckSig` raises nothing but CScriptInvalidError.
+    Used by C05's template theorems; the same statement as `SigHashOK` (Proofs/ScriptEquivSig.lean),
+    wrapped in a structure so that `(thm ..)` does not unfold it. -/
 structure Ctx.SigTotal (c : Ctx) : Prop where
-  total : ∀ script ht, (rawIter script).2 = none → ∃ d, c.sigHash script ht = .ok d
+  total : ∀ script ht, script.length ≤ MAX_SCRIPT_SIZE → ht < 256 → (rawIter script).2 = none →
+    ∃ d, c.sigHash script ht = .ok d
 
 /-- class name of a propagating exception -/
 def excClass : Exc → String
